@@ -29,7 +29,7 @@ ASSUMPTIONS = [
     "families are y - h(y) with h a q-contraction, q <= 0.6 (holomorphic family: q <= 0.35 inside its invariant ball |y| <= 0.5; convex "
     "objectives: Hessian eigenvalues in [0.6, 1.4] + quartic 0.05*z^4)",
     "must-be-silent only when f_tol and x_tol >= 200*eps(dtype)*sqrt(N)*(1+|y*|)/(1-q), maxiter is left at its default (or ample for gd/adam) "
-    "not for broyden1/2 on the holomorphic family (only locally contractive) and not for gd/adam warm starts",
+    "not for broyden1/2 on the holomorphic and quartic families (only locally contractive) and not for gd/adam warm starts",
     "float32 cases request f_tol, x_tol in {1e-2, 1e-3}",
     "gd/adam are run with step sizes adapted to the known Hessian bounds (gd 0.3-0.5, adam 3e-2) and maxiter 3000/6000",
     "agreement tolerance: 100*f_tol/(1-q) for the root-finding methods and anderson_acc; 1e-6*(1+|y*|) for gd without momentum (x_rtol=1e-9); "
@@ -325,8 +325,10 @@ def run_case(desc):
     must = desc["maxiter"] in (None, "ample")
     if not gd:
         must = must and f_tol >= floor and x_tol >= floor
-        if family == "holo" and method in ("broyden1", "broyden2"):
-            must = False     # contraction only inside the invariant ball; broyden's default first step (length >= 0.5) leaves it
+        if family in ("holo", "quartic") and method in ("broyden1", "broyden2"):
+            # these two families are contractions only near the solution (|y| <= 0.5 resp. |z| <~ 1.5); broyden's default first
+            # step has length >= 0.5*max(|y0|,1) and its early steps leave that region (1 non-convergent run in ~800 on the quartic)
+            must = False
     else:
         must = must and mode != "near"
     if mode == "ref" and desc["rtol"] == "f_rtol":
